@@ -151,7 +151,7 @@ pub fn process_on<const N: usize, I: Interface>(
 macro_rules! with_n {
     ($n:expr, $N:ident => $body:expr) => {
         $crate::with_n!(@go $n, $N, $body;
-            1 2 3 4 5 6 7 8 9 10 11 12 13 14 15 16 24 31 32 33 47 63 64 65 128 256)
+            1 2 3 4 5 6 7 8 9 10 11 12 13 14 15 16 17 18 19 20 21 22 23 24 25 26 27 28 29 30 31 32 33 34 35 36 37 38 39 40 41 42 43 44 45 46 47 48 49 50 51 52 53 54 55 56 57 58 59 60 61 62 63 64 65 96 127 128 129 255 256)
     };
     (@go $n:expr, $N:ident, $body:expr; $($k:literal)*) => {
         match $n {
@@ -162,5 +162,5 @@ macro_rules! with_n {
 }
 
 pub const N_ALL: &[usize] = &[
-    1, 2, 3, 4, 5, 6, 7, 8, 9, 10, 11, 12, 13, 14, 15, 16, 24, 31, 32, 33, 47, 63, 64, 65, 128, 256,
+    1, 2, 3, 4, 5, 6, 7, 8, 9, 10, 11, 12, 13, 14, 15, 16, 17, 18, 19, 20, 21, 22, 23, 24, 25, 26, 27, 28, 29, 30, 31, 32, 33, 34, 35, 36, 37, 38, 39, 40, 41, 42, 43, 44, 45, 46, 47, 48, 49, 50, 51, 52, 53, 54, 55, 56, 57, 58, 59, 60, 61, 62, 63, 64, 65, 96, 127, 128, 129, 255, 256,
 ];
